@@ -849,6 +849,14 @@ static int parse_data(vnacal_load_state_t *vlsp, const vnacal_layout_t *vlp,
 		*item);
 	double frequency = -1.0;
 
+	(void)memset((void *)matrices, 0, sizeof(matrices));
+	if (child->type != YAML_MAPPING_NODE) {
+	    _vnacal_error(vcp, VNAERR_SYNTAX,
+		    "%s (line %ld) error: expected a map for each entry "
+		    "of \"data\"",
+		    vcp->vc_filename, child->start_mark.line + 1);
+	    return -1;
+	}
 	for (pair = child->data.mapping.pairs.start;
 	     pair < child->data.mapping.pairs.top; ++pair) {
 	    yaml_node_t *key, *value;
@@ -996,7 +1004,7 @@ static int parse_data(vnacal_load_state_t *vlsp, const vnacal_layout_t *vlp,
 		    vcp->vc_filename, child->start_mark.line + 1);
 	    return -1;
 	}
-	if (findex > 1 &&
+	if (findex > 0 &&
 		frequency <= calp->cal_frequency_vector[findex - 1]) {
 	    _vnacal_error(vcp, VNAERR_SYNTAX,
 		    "%s (line %ld) error: frequencies are not in "
